@@ -5,6 +5,8 @@ from __future__ import absolute_import, print_function, unicode_literals
 
 import typing
 
+import itertools
+
 from collections import OrderedDict, namedtuple
 from operator import itemgetter
 from six import text_type
@@ -266,11 +268,20 @@ class MultiFS(FS):
     ):
         # type: (...) -> Iterator[Info]
         self.check()
+        scan = self._scandir(path, namespaces)
+        if page is not None:
+            # a page is a slice of the de-duplicated union listing
+            start, end = page
+            scan = itertools.islice(scan, start, end)
+        return scan
+
+    def _scandir(self, path, namespaces=None):
+        # type: (Text, Optional[Collection[Text]]) -> Iterator[Info]
         seen = set()  # type: MutableSet[Text]
         exists = False
         for _name, fs in self.iterate_fs():
             try:
-                for info in fs.scandir(path, namespaces=namespaces, page=page):
+                for info in fs.scandir(path, namespaces=namespaces):
                     if info.name not in seen:
                         yield info
                         seen.add(info.name)
